@@ -53,7 +53,7 @@ theorem mustOccurIf_false (r : Rules) (e : Ty) (vs : List Val) : mustOccurIf fal
 theorem encSeq_ok {lp : LP} {r : Rules} {o : Opts} {data : List Bytes} {b : Bytes}
     (h : encSeq lp r o data = .ok b) :
     ∃ p, writeLen lp data.length = .ok p ∧ (o.validation = true → r.boundsOk data.length = true) ∧
-      (o.validation = true → validSeq r true (if r.autoSort && r.lex then sortBytes data else data) = true) ∧
+      (o.validation = true → validSeq r (if r.autoSort && r.lex then sortBytes data else data) = true) ∧
       b = p ++ (if r.autoSort && r.lex then sortBytes data else data).flatten := by
   unfold encSeq at h
   split at h
@@ -329,9 +329,12 @@ theorem rt_byteArr (n : Nat) (code : Option Code) (mn mx : Nat) (hwf : codeWf co
   · rename_i hlen
     split at h
     · exact absurd h (by simp)
-    · cases h
+    · rename_i hb
+      cases h
       have hr := readCode_codeBytes hwf (bs ++ rest)
-      simp only [dec, List.append_assoc, hr]
+      have hb' : (!o.validation || boundsOk mn mx n) = true := by
+        cases hv : o.validation <;> cases hbo : boundsOk mn mx n <;> simp_all
+      simp only [dec, hb', Res.require_true, Res.ok_bind, List.append_assoc, hr]
       simp at hlen
       simp [hlen, canon]
 
@@ -460,7 +463,6 @@ theorem seq_roundtrip (lp : LP) (r : Rules) (o : Opts) (item : Bytes → Res (Va
     (ps : List (Bytes × Val)) (b : Bytes)
     (henc : encSeq lp r o (ps.map (·.1)) = .ok b)
     (hitem : ∀ p ∈ ps, ∀ rest, item (p.1 ++ rest) = .ok (p.2, p.1.length))
-    (hne : (r.lex && r.noDups) = true → ∀ p ∈ ps, p.1 ≠ [])
     (rest : Bytes) :
     ∃ w, readLen lp (b ++ rest) = .ok (ps.length, w) ∧
       (o.validation = true → r.boundsOk ps.length = true) ∧
@@ -485,16 +487,10 @@ theorem seq_roundtrip (lp : LP) (r : Rules) (o : Opts) (item : Bytes → Res (Va
   · rw [List.append_assoc]; exact readLen_writeLen hpre _
   · have hloop := decLoop_pairs item ps' (fun p hp => hitem p (hperm.mem_iff.1 hp)) rest
     rw [hlen] at hloop
-    have hv : (!o.validation || validSeq r false (ps'.map (·.1))) = true := by
+    have hv : (!o.validation || validSeq r (ps'.map (·.1))) = true := by
       cases hval : o.validation with
       | false => rfl
-      | true =>
-        have := hvalid hval
-        rw [validSeq_write_eq_read r] at this
-        · simpa using this
-        · intro hc a ha
-          obtain ⟨p, hp, rfl⟩ := List.mem_map.1 ha
-          exact hne hc p (hperm.mem_iff.1 hp)
+      | true => simpa using hvalid hval
     have hb : (!o.validation || r.boundsOk ps.length) = true := by
       cases hval : o.validation with
       | false => rfl
@@ -640,9 +636,9 @@ theorem startsWith_code_lt {t : Ty} {den : Den} {code : Nat} (hs : t.startsWith 
     ⟨c, fs, rfl, rfl, rfl⟩ | ⟨n, c, mn, mx, rfl, rfl, rfl⟩ <;>
   simp only [Ty.wf, Ty.ptrTarget, codeWf, Code.wf, Bool.and_eq_true, decide_eq_true_eq, Bool.true_and] at hwf
   · exact hwf.1
+  · exact hwf
   · exact hwf.1
-  · exact hwf.1
-  · exact hwf.1
+  · exact hwf
 
 /-! ## map keys -/
 
@@ -739,8 +735,7 @@ theorem encSeq_elem_bound {lp : LP} {r : Rules} {o : Opts} {data : List Bytes} {
   omega
 
 /-- Slices and arrays: everything after the element encodings. -/
-theorem coll_roundtrip (lp : LP) (r : Rules) (e : Ty) (hrt : RT e)
-    (hne : (r.lex && r.noDups) = true → e.nonEmpty = true) (o : Opts) (vs : List Val) (data : List Bytes)
+theorem coll_roundtrip (lp : LP) (r : Rules) (e : Ty) (hrt : RT e) (o : Opts) (vs : List Val) (data : List Bytes)
     (b : Bytes) (hmust : mustOccurIf o.validation r e vs = .ok ())
     (hdata : mapMRes (fun v => enc e true v o) vs = .ok data) (hseq : encSeq lp r o data = .ok b)
     (hlen : b.length < 2 ^ 32) (rest : Bytes) :
@@ -764,11 +759,7 @@ theorem coll_roundtrip (lp : LP) (r : Rules) (e : Ty) (hrt : RT e)
     have hl : (bytesOf (enc e true v o)).length ≤ b.length :=
       hbound _ (List.mem_map.2 ⟨_, hp, rfl⟩)
     exact hrt true v o _ (hd2 v hv) (by omega) rest
-  have hne' : (r.lex && r.noDups) = true → ∀ p ∈ ps, p.1 ≠ [] := by
-    intro hc p hp
-    obtain ⟨v, hv, rfl⟩ := List.mem_map.1 hp
-    exact ne_ty e (hne hc) true v o _ (hd2 v hv)
-  obtain ⟨w, hread, hb, hbody⟩ := seq_roundtrip lp r o (fun b => dec e b o) ps b hseq hitem hne' rest
+  obtain ⟨w, hread, hb, hbody⟩ := seq_roundtrip lp r o (fun b => dec e b o) ps b hseq hitem rest
   rw [hpsl] at hread hb hbody
   refine ⟨w, _, hread, hb, hbody, ?_, ?_⟩
   · apply mustOccurIf_perm_canon (o := o) hmust
@@ -838,8 +829,7 @@ theorem encKV_ok {ek ev : Val → Res Bytes} {a c : Val} {x : Bytes} (h : encKV 
   simp [h1, h2, bytesOf]
 
 /-- Maps: everything after the entry encodings. -/
-theorem map_roundtrip (lp : LP) (r : Rules) (k v : Ty) (hk : RT k) (hv : RT v) (hkey : k.isKey = true)
-    (hne : r.noDups = true → k.nonEmpty = true) (o : Opts) (kvs : List Val) (data : List Bytes) (b : Bytes)
+theorem map_roundtrip (lp : LP) (r : Rules) (k v : Ty) (hk : RT k) (hv : RT v) (hkey : k.isKey = true) (o : Opts) (kvs : List Val) (data : List Bytes) (b : Bytes)
     (hkeys : mapKeysOk kvs = true)
     (hdata : mapMRes (encKV (fun a => enc k true a o) (fun b => enc v true b o)) kvs = .ok data)
     (hseq : encSeq lp r.ordered o data = .ok b) (hlen : b.length < 2 ^ 32) (rest : Bytes) :
@@ -881,14 +871,7 @@ theorem map_roundtrip (lp : LP) (r : Rules) (k v : Ty) (hk : RT k) (hv : RT v) (
     have r1 := hk true a o _ h1 (by omega) (bytesOf (enc v true c o) ++ rest)
     have r2 := hv true c o _ h2 (by omega) rest
     simp only [decKV, List.append_assoc, r1, Res.ok_bind, List.drop_left, r2, Res.pure_eq]
-  have hne' : (r.ordered.lex && r.ordered.noDups) = true → ∀ p ∈ ps, p.1 ≠ [] := by
-    intro hc p hp
-    have hnd : r.noDups = true := by simpa [Rules.ordered] using hc
-    obtain ⟨e, he, rfl⟩ := List.mem_map.1 hp
-    obtain ⟨a, c, rfl, h1, _, _⟩ := hfacts e he
-    simp only [cf, canonKV]
-    exact append_ne_nil_left (ne_ty k (hne hnd) true a o _ h1)
-  obtain ⟨w, hread, _, hbody⟩ := seq_roundtrip lp r.ordered o _ ps b hseq hitem hne' rest
+  obtain ⟨w, hread, _, hbody⟩ := seq_roundtrip lp r.ordered o _ ps b hseq hitem rest
   rw [hpsl] at hread hbody
   have hsort : (r.ordered.autoSort && r.ordered.lex) = true := by simp [Rules.ordered]
   rw [hsort] at hbody
@@ -935,39 +918,31 @@ theorem rt_ty : ∀ (t : Ty), t.wf = true → RT t
   | .str lp mn mx, _ => rt_str lp mn mx
   | .bytes lp mn mx, _ => rt_bytes lp mn mx
   | .byteArr n code mn mx, hwf => by
-    simp only [Ty.wf, Bool.and_eq_true] at hwf
-    exact rt_byteArr n code mn mx hwf.1
+    simp only [Ty.wf] at hwf
+    exact rt_byteArr n code mn mx hwf
   | .u256, _ => rt_u256
   | .time, _ => rt_time
   | .slice lp r e, hwf => by
     intro pre v o b h hlen rest
-    simp only [Ty.wf, Bool.and_eq_true, Bool.or_eq_true, Bool.not_eq_eq_eq_not, Bool.not_true] at hwf
+    simp only [Ty.wf] at hwf
     rcases v with x | x | x | x | ⟨x, y⟩ | _ | x | ⟨x, y⟩ <;> simp only [enc] at h <;> (try contradiction)
     simp only [Res.bind_eq_ok, Res.require_eq_ok_iff, exists_and_left, exists_const] at h
     obtain ⟨_, u, hmust, data, hdata, hseq⟩ := h
-    have hne : (r.lex && r.noDups) = true → e.nonEmpty = true := by
-      intro hc; rcases hwf.2 with h' | h'
-      · rw [hc] at h'; contradiction
-      · exact h'
     obtain ⟨w, items, hread, _, hbody, hmust', hcanon⟩ :=
-      coll_roundtrip lp r e (rt_ty e hwf.1) hne o x data b hmust hdata hseq hlen rest
+      coll_roundtrip lp r e (rt_ty e hwf) o x data b hmust hdata hseq hlen rest
     rw [hcanon] at hmust'
     simp only [dec, hread, Res.ok_bind, hbody, Res.pure_eq, canon, hcanon, hmust']
   | .array n lp r e, hwf => by
     intro pre v o b h hlen rest
-    simp only [Ty.wf, Bool.and_eq_true, Bool.or_eq_true, Bool.not_eq_eq_eq_not, Bool.not_true] at hwf
+    simp only [Ty.wf] at hwf
     rcases v with x | x | x | x | ⟨x, y⟩ | _ | x | ⟨x, y⟩ <;> simp only [enc] at h <;> (try contradiction)
     split at h
     · contradiction
     · rename_i hn
       simp only [Res.bind_eq_ok, Res.require_eq_ok_iff, exists_and_left, exists_const] at h
       obtain ⟨_, u, hmust, data, hdata, hseq⟩ := h
-      have hne : (r.lex && r.noDups) = true → e.nonEmpty = true := by
-        intro hc; rcases hwf.2 with h' | h'
-        · rw [hc] at h'; contradiction
-        · exact h'
       obtain ⟨w, items, hread, hb, hbody, hmust', hcanon⟩ :=
-        coll_roundtrip lp r e (rt_ty e hwf.1) hne o x data b hmust hdata hseq hlen rest
+        coll_roundtrip lp r e (rt_ty e hwf) o x data b hmust hdata hseq hlen rest
       have hn' : x.length = n := by simpa using hn
       have hb' : (!o.validation || r.boundsOk x.length) = true := by
         cases hval : o.validation with
@@ -979,20 +954,16 @@ theorem rt_ty : ∀ (t : Ty), t.wf = true → RT t
         hbody, Res.pure_eq, canon, hcanon, hmust']
   | .map lp r k v, hwf => by
     intro pre val o b h hlen rest
-    simp only [Ty.wf, Bool.and_eq_true, Bool.or_eq_true, Bool.not_eq_eq_eq_not, Bool.not_true] at hwf
+    simp only [Ty.wf, Bool.and_eq_true] at hwf
     rcases val with x | x | x | x | ⟨x, y⟩ | _ | x | ⟨x, y⟩ <;> simp only [enc] at h <;> (try contradiction)
     split at h
     · contradiction
     · rename_i hkeys
       simp only [Res.bind_eq_ok, Res.require_eq_ok_iff, exists_and_left, exists_const] at h
       obtain ⟨_, data, hdata, hseq⟩ := h
-      have hne : r.noDups = true → k.nonEmpty = true := by
-        intro hc; rcases hwf.2 with h' | h'
-        · rw [hc] at h'; contradiction
-        · exact h'
       have hkeys' : mapKeysOk x = true := by simpa using hkeys
       obtain ⟨w, items, hread, hbody, hnodup, hcanon⟩ :=
-        map_roundtrip lp r k v (rt_ty k hwf.1.1.2) (rt_ty v hwf.1.2) hwf.1.1.1 hne o x data b hkeys' hdata hseq hlen rest
+        map_roundtrip lp r k v (rt_ty k hwf.1.2) (rt_ty v hwf.2) hwf.1.1 o x data b hkeys' hdata hseq hlen rest
       simp only [dec, hread, Res.ok_bind, hbody, hnodup, Res.require_true, Res.pure_eq, canon, hcanon]
   | .struct code fs, hwf => by
     intro pre v o b h hlen rest
